@@ -38,4 +38,11 @@ theorem byteOf_be32 (vs : List UInt8) (h : vs.length ≤ 4) (i : Nat) (hi : i < 
   | [_, _, _], _, _ + 3, hi => simp at hi; omega
   | [_, _, _, _], _, _ + 4, hi => simp at hi; omega
   | _ :: _ :: _ :: _ :: _ :: _, h, _, _ => simp at h
+
+theorem be32_single (x : UInt8) : (be32 [x]).toUInt8 = x := by
+  apply UInt8.toNat_inj.mp
+  rw [UInt32.toNat_toUInt8, be32_toNat [x] (by simp)]
+  simp only [beNat, List.length_nil, Nat.pow_zero, Nat.mul_one, Nat.add_zero]
+  have := x.toNat_lt
+  omega
 end Sx
